@@ -34,6 +34,9 @@ Inductive hev :=
     (* hook: SendHandshakeInitiation(false) for peer p *)
 | HRestart
     (* Device.Down(); Device.Up() *)
+| HRInitKey (xid : N) (s r mk e : kid) (idx ts : N) (pskid : nat) (er : kid) (ir : N) (new : kid)
+    (* as HRInit, and UAPI private_key=<key new> issued while the handshake worker sits between
+       ConsumeMessageInitiation and SendHandshakeResponse (after the worker is done if it never gets there) *)
 | HGhost (k : kid)
     (* UAPI set  public_key=<pub k> update_only=true ...  for a key that is NOT configured: creates nothing *)
 | HAge (secs : N)
@@ -124,17 +127,14 @@ Definition set_mac1 (m : init_msg) (t : term) : init_msg :=
   {| i_type := i_type m; i_sender := i_sender m; i_eph := i_eph m; i_static := i_static m;
      i_ts := i_ts m; i_mac1 := t; i_mac2 := i_mac2 m |}.
 
-(* one step of the world: the device slice against paper parties; returns the
-   predicted outputs and ref's predicted verdict *)
-Definition wstep (w : world) (h : hev) : world * list out * N :=
-  let dv := d_static (w_dev w) in
-  match h with
-  | HRInit xid s r mk e idx ts pskid er ir =>
+(* a ref party sends an initiation; the device reacts as [mkev] says; ref consumes the response, if any *)
+Definition ref_initiates (w : world) (xid : N) (s r mk e : kid) (idx ts : N) (pskid : nat) (mkev : init_msg -> ev)
+  : world * list out * N :=
       match Paper.initiation s e (TPub r) ts idx with
       | None => (w, [], 0)
       | Some (s1, m) =>
         let m' := set_mac1 m (TMac (THash2 LabelMac1 (TPub mk)) (init_body m)) in
-        let '(d', outs) := dev_step (w_dev w) (EInit m' er ir) in
+        let '(d', outs) := dev_step (w_dev w) (mkev m') in
         (* ref consumes the response, if any *)
         let '(sess, verdict) :=
           fold_left (fun acc o =>
@@ -154,7 +154,17 @@ Definition wstep (w : world) (h : hev) : world * list out * N :=
             end) outs (w_sess w, 0) in
         ({| w_dev := d'; w_sess := sess; w_dinits := w_dinits w;
             w_dmsgs := remember_msgs xid outs (w_dmsgs w); w_cookies := w_cookies w |}, outs, verdict)
-      end
+      end.
+
+(* one step of the world: the device slice against paper parties; returns the
+   predicted outputs and ref's predicted verdict *)
+Definition wstep (w : world) (h : hev) : world * list out * N :=
+  let dv := d_static (w_dev w) in
+  match h with
+  | HRInit xid s r mk e idx ts pskid er ir =>
+      ref_initiates w xid s r mk e idx ts pskid (fun m' => EInit m' er ir)
+  | HRInitKey xid s r mk e idx ts pskid er ir new =>
+      ref_initiates w xid s r mk e idx ts pskid (fun m' => EInitKey m' er ir new)
   | HRResp xid ans r pskid e idx =>
       match find_dinit (w_dinits w) ans with
       | None => (w, [], 0)
@@ -261,7 +271,9 @@ Fixpoint conf_psk (conf : list (kid * nat)) (s : kid) : option nat :=
    [current] / the newest keypair-deriving exchange -- all read off observations *)
 Record sp := { sp_k : kid; sp_maxts : N; sp_open : option N; sp_cur : option N; sp_last : option N;
                sp_lastmsg : N;   (* exchange of the last handshake message the device sent to this peer *)
-               sp_ck : bool }.   (* a cookie reply that is authentic BY CONSTRUCTION was delivered for this peer *)
+               sp_ck : N }.      (* cookie replies that are authentic BY CONSTRUCTION delivered for this peer:
+                                    0 none (or expired), 1 one was sent but its index may be dead or time has passed,
+                                    2 one was delivered to a live index less than CookieRefreshTime ago: it is held *)
 Record xinfo := { x_id : N; x_peer : kid; x_good : bool }.
 Record sstate := { ss_sp : list sp; ss_x : list xinfo; ss_di : list (N * kid);
                    ss_dv : kid;            (* the device's current static key *)
@@ -273,7 +285,7 @@ Definition is_dead (l : list kid) (p : kid) : bool := existsb (Nat.eqb p) l.
 
 Fixpoint get_sp (l : list sp) (k : kid) : sp :=
   match l with
-  | [] => {| sp_k := k; sp_maxts := 0; sp_open := None; sp_cur := None; sp_last := None; sp_lastmsg := 0; sp_ck := false |}
+  | [] => {| sp_k := k; sp_maxts := 0; sp_open := None; sp_cur := None; sp_last := None; sp_lastmsg := 0; sp_ck := 0 |}
   | s :: r => if Nat.eqb (sp_k s) k then s else get_sp r k
   end.
 Definition put_sp (l : list sp) (s : sp) : list sp :=
@@ -292,12 +304,14 @@ Definition oeq (a : option N) (x : N) : bool := match a with Some y => y =? x | 
    cookie": a reply that does not authenticate is not a cookie),
    an initiation opens under the addressed (configured) peer's key and carries the device's key *)
 Definition hs_msg_ok (conf : list (kid * nat)) (sps : list sp) (d : list N) : bool :=
-  let may := sp_ck (get_sp sps (N.to_nat (nth0 d 1))) in
+  let ck := sp_ck (get_sp sps (N.to_nat (nth0 d 1))) in
+  (* MAC2: zero absent a cookie; the MAC under a cookie the peer issued when one is held; either when unsure *)
+  let mac2_ok (c : N) := match ck with 0 => c =? 1 | 2 => c =? 2 | _ => (c =? 1) || (c =? 2) end in
   if is_kind 1 d then
-    (nth0 d 2 =? MessageInitiationSize) && (nth0 d 4 =? nth0 d 1) && ((nth0 d 5 =? 1) || may) && (nth0 d 6 =? nth0 d 1) &&
+    (nth0 d 2 =? MessageInitiationSize) && (nth0 d 4 =? nth0 d 1) && mac2_ok (nth0 d 5) && (nth0 d 6 =? nth0 d 1) &&
     (match conf_psk conf (N.to_nat (nth0 d 1)) with Some _ => true | None => false end)
   else if is_kind 2 d then
-    (nth0 d 2 =? MessageResponseSize) && (nth0 d 5 =? nth0 d 1) && ((nth0 d 6 =? 1) || may)
+    (nth0 d 2 =? MessageResponseSize) && (nth0 d 5 =? nth0 d 1) && mac2_ok (nth0 d 6)
   else true.
 
 (* transports go only to the peer of a good exchange and open under its keys *)
@@ -414,6 +428,23 @@ Definition sstep (conf : list (kid * nat)) (s : sstate) (h : hev) (o : obs) : ss
       ({| ss_sp := put_sp (ss_sp s) q'; ss_x := ss_x s;
           ss_di := if initiated then (xid, p) :: ss_di s else ss_di s; ss_dv := ss_dv s; ss_dead := ss_dead s;
           ss_dis := if initiated then (xid, ss_dv s) :: ss_dis s else ss_dis s |}, ok)
+  | HRInitKey xid sk r mk e idx ts pskid _ _ new =>
+      (* the identity changes while an initiation is being processed: whatever the initiation was, the
+         exchange is void -- no response, no keypair; the initiation may have been consumed (its timestamp
+         counts); afterwards as after any key change *)
+      let wellformed := match conf_psk conf sk with Some _ => true | None => false end
+                        && Nat.eqb r dv && Nat.eqb mk dv in
+      let q := get_sp (ss_sp s) sk in
+      let fresh := sp_maxts q <? ts in
+      let noop := Nat.eqb new dv || existsb (fun kp => Nat.eqb (fst kp) new) conf in
+      let q' := {| sp_k := sk; sp_maxts := if wellformed && fresh then ts else sp_maxts q; sp_open := sp_open q;
+                   sp_cur := sp_cur q; sp_last := sp_last q; sp_lastmsg := sp_lastmsg q; sp_ck := sp_ck q |} in
+      ({| ss_sp := map (fun q => {| sp_k := sp_k q; sp_maxts := sp_maxts q; sp_open := None; sp_cur := sp_cur q;
+                                    sp_last := sp_last q; sp_lastmsg := sp_lastmsg q; sp_ck := sp_ck q |})
+                       (put_sp (ss_sp s) q');
+          ss_x := {| x_id := xid; x_peer := sk; x_good := false |} :: ss_x s;
+          ss_di := ss_di s; ss_dv := new; ss_dead := map fst conf; ss_dis := ss_dis s |},
+       negb noop && (o_ref o =? 0) && match outs with [] => true | _ => false end)
   | HGhost _ =>
       (* update_only for an unknown key configures nobody: nothing is sent, nothing changes *)
       (s, match outs with [] => true | _ => false end)
@@ -423,7 +454,7 @@ Definition sstep (conf : list (kid * nat)) (s : sstate) (h : hev) (o : obs) : ss
          shorter ages leave "may hold a cookie" as it is *)
       ({| ss_sp := map (fun q => {| sp_k := sp_k q; sp_maxts := sp_maxts q; sp_open := sp_open q; sp_cur := sp_cur q;
                                     sp_last := sp_last q; sp_lastmsg := sp_lastmsg q;
-                                    sp_ck := if CookieRefreshTimeSecs <? secs then false else sp_ck q |}) (ss_sp s);
+                                    sp_ck := if CookieRefreshTimeSecs <? secs then 0 else N.min 1 (sp_ck q) |}) (ss_sp s);
           ss_x := ss_x s; ss_di := ss_di s; ss_dv := ss_dv s; ss_dead := ss_dead s; ss_dis := ss_dis s |},
        match outs with [] => true | _ => false end)
   | HSetKey new =>
@@ -450,8 +481,12 @@ Definition sstep (conf : list (kid * nat)) (s : sstate) (h : hev) (o : obs) : ss
       | Some p =>
         let q := get_sp (ss_sp s) p in
         let authentic := negb garbage && Nat.eqb keykid p && (adx =? sp_lastmsg q) && negb (adx =? 0) in
+        (* the index it addresses is certainly alive: the device's open initiation, or the response of the
+           newest exchange in which it derived a keypair (the index then names that keypair) *)
+        let live := (msgx =? sp_lastmsg q) && (oeq (sp_open q) msgx || oeq (sp_last q) msgx) in
         let q' := {| sp_k := p; sp_maxts := sp_maxts q; sp_open := sp_open q; sp_cur := sp_cur q; sp_last := sp_last q;
-                     sp_lastmsg := sp_lastmsg q; sp_ck := sp_ck q || authentic |} in
+                     sp_lastmsg := sp_lastmsg q;
+                     sp_ck := if authentic && live then 2 else if authentic then N.max 1 (sp_ck q) else sp_ck q |} in
         ({| ss_sp := put_sp (ss_sp s) q'; ss_x := ss_x s; ss_di := ss_di s; ss_dv := ss_dv s; ss_dead := ss_dead s; ss_dis := ss_dis s |},
          match outs with [] => true | _ => false end)   (* a cookie reply is never answered *)
       end
@@ -537,6 +572,7 @@ Definition stat_step (st : list N) (ho : hev * obs) : list N :=
   let outs := o_outs o in
   let st := match h with
             | HRInit _ _ _ _ _ _ _ _ _ _ => bump st (if no_kind 2 outs then 1 else 0)
+            | HRInitKey _ _ _ _ _ _ _ _ _ _ _ => bump (bump st (if no_kind 2 outs then 1 else 0)) 11
             | HRResp _ _ _ _ _ _ => bump st (if no_kind 4 outs then 3 else 2)
             | HRData _ _ ka => if ka then st else bump st (if no_kind 5 outs then 5 else 4)
             | HTun _ _ _ _ _ | HKick _ _ _ _ _ => if no_kind 1 outs then st else bump st 6
@@ -562,6 +598,8 @@ Definition mk_obs (outs : list (list N)) (rf : N) (peers : list (list N))
 Definition n2k (n : N) : kid := N.to_nat n.
 Definition rinit (xid s r mk e idx ts pskid er ir : N) : hev :=
   HRInit xid (n2k s) (n2k r) (n2k mk) (n2k e) idx ts (N.to_nat pskid) (n2k er) ir.
+Definition rinitkey (xid s r mk e idx ts pskid er ir new : N) : hev :=
+  HRInitKey xid (n2k s) (n2k r) (n2k mk) (n2k e) idx ts (N.to_nat pskid) (n2k er) ir (n2k new).
 Definition rresp (xid ans r pskid e idx : N) : hev := HRResp xid ans (n2k r) (N.to_nat pskid) (n2k e) idx.
 Definition rdata (xid ctr ka : N) : hev := HRData xid ctr (negb (ka =? 0)).
 Definition tun (xid p e ts idx : N) : hev := HTun xid (n2k p) (n2k e) ts idx.
